@@ -38,7 +38,11 @@ theorem safe_tsGt (P : Params) (a b : OTs) : Safe (tsGt P a b) := by
   cases a with
   | stamp s n =>
     cases b with
-    | stamp s2 n2 => exact safe_ok _
+    | stamp s2 n2 =>
+      simp only [tsGt]
+      split
+      · split <;> exact safe_ok _
+      · exact safe_ok _
     | flt f =>
       simp only [tsGt, h1, h2, if_true]
       split <;> exact safe_ok _
